@@ -3,6 +3,7 @@ CONSTANTS
   Entries = {"unmarshal", "irb_set_slice", "irb_clear_slice", "irb_set_btree", "irb_clear_btree", "frag_open"}
   SrvEntries = {"api_import_set", "api_import_clear", "api_import_views", "http_import_set", "http_import_clear"}
   PqlEntries = {}
+  EnvEntries = {}
   MsgEntries = {}
   Formats = {"pilosa", "official", "official_runs"}
   Shapes <- ShapesAll
